@@ -337,5 +337,19 @@ func registry() map[string]PropSpec {
 		},
 		Assumptions: []string{"yaml.Unmarshal of JSON bytes is modelled by converting the abstract JSON tree to the node graph yaml.v3's parser produces for JSON input; yaml.Node.Decode on scalar nodes by tag", "encoding/json.Marshal in the abstract JSON data model", "url/path models as in C17"},
 	})
+	add(PropSpec{
+		ID: "C02",
+		Harnesses: []HSpec{
+			{Pkg: "signature", Name: "c02_roundtrip", Quick: map[string]int{}, Unwind: [2]int{64, 64}, Budget: [2]int{120, 1500}, FixedMapOrder: true, Models: []string{"net/url.Parse=vpModelURLParse", "path.Join=vpModelPathJoin"},
+				What: "SignSteps on a command step drawn from an option lattice (command incl. multi-line, env nil/empty/populated with type-looking strings, plugins nil/empty/short source/canonical source with every scalar kind in configs, matrix nil/empty/simple/named+adjustments/only adjustments, pipeline env with a shadowed variable, all key kinds) plus wait and group steps -> json.Marshal -> re-parse via CommandStep.UnmarshalJSON and via the whole-pipeline path -> Verify with the pipeline env plus an unrelated variable: signature unchanged and still verifies, also inside groups"},
+		},
+		Outside: []string{
+			"the YAML leg and real bytes: the round trip through yaml.v3's emitter/scanner and encoding/json's byte output, and real signatures - this part of C02 is not claimed",
+			"interpolation before signing (C04/C10); Go map iteration orders are not varied here (C14 decides payload order-insensitivity)",
+		},
+		Assumptions: []string{"ideal signature scheme: jws.Sign(k, alg, P) is the atom sigma(k, alg, P); jws.Verify succeeds iff the presented value is such an atom made with an offered key (same key-pair identity and algorithm) over an equal payload; values not produced by Sign never verify. Natively replays use real generated EdDSA/ES512/PS512/ES256 keys",
+			"canonical encoding: encoding/json.Marshal + jcs.Transform are injective on, and a function of, the JSON data model (member order and number spelling canonicalised: an int re-read as a float of the same value is the same number)",
+			"yaml.Unmarshal of JSON bytes modelled on the JSON data model (C09)"},
+	})
 	return r
 }
